@@ -1,10 +1,13 @@
 /- COMPILE suite: the structured compiler `Abs.compile` on the generator's AST, printed in the format of the
 harness's DUMP suite (the built instruction stream of the printed program), so that the two can be compared
 line by line. -/
-import Garnish.Abs.Compile
+import Garnish.Lemmas.CompileBase
+import Garnish.Props.C06Static
 import Garnish.Driver.RunDrv
 namespace Garnish.Driver
 open Garnish Gen Garnish.Abs Garnish.Spec
+
+namespace CompileAux
 
 def showInstr (P : Prog Float) (i : Instr) : String :=
   match i with
@@ -21,6 +24,92 @@ def showProg (P : Prog Float) (entry : Nat) : String :=
   let js := String.join (P.jumps.toList.map (fun j => toString j ++ ","))
   s!"ok entry={entry} meta={P.instrs.size} {is} J={js}"
 
+/-! relabelling: the generator numbers nested bodies in source order; `WFProgram` wants the jump entries -/
+mutual
+def relabelE (m : Nat → Nat) : E → E
+  | .nested id => .nested (m id)
+  | .unary op x => .unary op (relabelE m x)
+  | .binary op l r => .binary op (relabelE m l) (relabelE m r)
+  | .pair l r => .pair (relabelE m l) (relabelE m r)
+  | .applyTo l r => .applyTo (relabelE m l) (relabelE m r)
+  | .list items => .list (relabelL m items)
+  | .cond b c t => .cond b (relabelE m c) (relabelE m t)
+  | .chain arms none => .chain (relabelA m arms) none
+  | .chain arms (some e) => .chain (relabelA m arms) (some (relabelE m e))
+  | .and l r => .and (relabelE m l) (relabelE m r)
+  | .or l r => .or (relabelE m l) (relabelE m r)
+  | .seq l r => .seq (relabelE m l) (relabelE m r)
+  | .sideAfter l r => .sideAfter (relabelE m l) (relabelE m r)
+  | .reapply x => .reapply (relabelE m x)
+  | .prefixApply sy x => .prefixApply sy (relabelE m x)
+  | .suffixApply x sy => .suffixApply (relabelE m x) sy
+  | .infixApply a sy b => .infixApply (relabelE m a) sy (relabelE m b)
+  | e => e
+def relabelL (m : Nat → Nat) : List E → List E
+  | [] => []
+  | x :: xs => relabelE m x :: relabelL m xs
+def relabelA (m : Nat → Nat) : List (Bool × E × E) → List (Bool × E × E)
+  | [] => []
+  | (b, c, t) :: rest => (b, relabelE m c, relabelE m t) :: relabelA m rest
+end
+
+def refIds (rs : List (Root Float)) : List (Nat × Nat) :=
+  rs.filterMap (fun r => match r.kind with | .ref id => some (id, r.patch) | .code _ => none)
+
+/-- the program with every nested body named by the jump entry `compile` gives it -/
+def canonical (p : Program Float) : Program Float :=
+  let ids := refIds (compileState Prog.empty p).done
+  let m : Nat → Nat := fun id => ((ids.find? (fun q => q.1 == id)).map (·.2)).getD id
+  { main := relabelE m p.main, bodies := p.bodies.map (fun (id, b) => (m id, relabelE m b)) }
+
+/-- the decidable fields of `Props.C01.WFProgram` (all of them except `main0`, which holds by construction of
+`programOfTerm`) -/
+def wfReport (p : Program Float) : String :=
+  let st := compileState Prog.empty p
+  let ids := refIds st.done
+  let complete := st.pending.isEmpty
+  let labels := ids.all (fun q => q.1 == q.2)
+  let covered := p.bodies.all (fun (id, _) => ids.any (fun q => q.1 == id))
+  let patches := st.done.map (·.patch)
+  let distinct := patches.eraseDups.length == patches.length
+  let wf := p.bodies.all (fun (_, b) => wfE b)
+  let tail := tailR p.main
+  let all := complete && labels && covered && distinct && wf && tail
+  s!"wf={all} complete={complete} labels={labels} covered={covered} distinct={distinct} wfE={wf} tail={tail}"
+
+/-- the harness's DUMP line -> program (constants allocated in order of appearance) and entry jump index -/
+def parseDump (line : String) : Option (Prog Float × Nat) :=
+  match line.splitOn " J=" with
+  | [left, js] =>
+    match left.splitOn " " with
+    | "ok" :: e :: _m :: rest =>
+      let entry := ((e.splitOn "=").getD 1 "").toNat?
+      let body := " ".intercalate rest
+      let jumps := (js.splitOn ",").filterMap (fun x => x.toNat?)
+      let toks := (body.splitOn ",").filter (fun x => x != "")
+      let step (acc : Option (Array Instr × Array (Val Float))) (tok : String) : Option (Array Instr × Array (Val Float)) :=
+        match acc with
+        | none => none
+        | some (is, cs) =>
+          match tok.splitOn ":" with
+          | [name] => (Instruction.ofName? name).map (fun i => (is.push (i, none), cs))
+          | [name, opnd] =>
+            match Instruction.ofName? name with
+            | none => none
+            | some i =>
+              if i == .put || i == .resolve then
+                some (is.push (i, some cs.size), cs.push ((parseVal opnd).getD .unit))
+              else opnd.toNat?.map (fun n => (is.push (i, some n), cs))
+          | _ => none
+      match entry, toks.foldl step (some (#[], #[])) with
+      | some en, some (is, cs) => some (⟨is, jumps.toArray, cs⟩, en)
+      | _, _ => none
+    | _ => none
+  | _ => none
+
+end CompileAux
+open CompileAux
+
 /-- COMPILE \t id \t <ast term> -/
 def compileCase (f : List String) : String :=
   match f with
@@ -30,6 +119,32 @@ def compileCase (f : List String) : String :=
       let st := compileState Prog.empty p
       if st.pending.isEmpty then showProg st.toProg 0 else "INCOMPLETE"
     | none => "BAD-CASE ast"
+  | _ => "BAD-CASE fields"
+
+/-- WFCHECK \t id \t <ast term>: does the theorem `C01_compile_correct` apply to this program (after naming the
+nested bodies by their jump entries)? -/
+def wfCase (f : List String) : String :=
+  match f with
+  | _ :: _ :: ast :: _ =>
+    match (Term.parse ast).bind programOfTerm with
+    | some p => wfReport (canonical p)
+    | none => "BAD-CASE ast"
+  | _ => "BAD-CASE fields"
+
+/-- ABSDEPTH \t id \t <harness DUMP line verbatim>: the verified depth analysis on the implementation's own
+instruction stream -/
+def absDepthCase (f : List String) : String :=
+  match f with
+  | _ :: _ :: line :: _ =>
+    match parseDump line with
+    | some (P, entry) =>
+      match P.jumps[entry]? with
+      | none => "BAD-CASE entry"
+      | some t =>
+        match Props.C06.absDepthE P t with
+        | .ok _ => "balanced=true at=-"
+        | .error pc => s!"balanced=false at={pc}"
+    | none => "BAD-CASE dump"
   | _ => "BAD-CASE fields"
 
 end Garnish.Driver
